@@ -35,7 +35,7 @@ STREAM = {
     "C01": ("c01", ["--cases", 900, "--cost", 2500000, "--bigshare", 300], ["--cases", 24000, "--cost", 90000000, "--bigshare", 40]),
     "C02": ("c02", ["--cases", 700, "--cost", 1000000, "--bigshare", 350], ["--cases", 18000, "--cost", 60000000, "--bigshare", 30]),
     "C03": ("c03", ["--cases", 500, "--cost", 1500000], ["--cases", 12000, "--cost", 40000000, "--bigshare", 25]),
-    "C04": ("c04", ["--sweep", "--cases", 400, "--cost", 500000], ["--sweep", "--cases", 9000, "--cost", 30000000, "--bigshare", 20]),
+    "C04": ("c04", ["--sweep", "--cases", 400, "--cost", 700000], ["--sweep", "--cases", 9000, "--cost", 30000000, "--bigshare", 20]),
     "C08": ("c08", ["--counts", "--cases", 700, "--cost", 1000000, "--bigshare", 350], ["--counts", "--cases", 15000, "--cost", 60000000, "--bigshare", 20]),
     "C09": ("c09", ["--cases", 900, "--cost", 1500000, "--bigshare", 450], ["--cases", 24000, "--cost", 90000000, "--bigshare", 40]),
     "C05": ("c05", ["--cases", 400, "--cost", 500000], ["--cases", 8000, "--cost", 20000000]),
